@@ -6,7 +6,7 @@
 use core::marker::PhantomData;
 use palette::cast::ArrayCast;
 use palette::convert::{FromColor, FromColorUnclamped, TryFromColor};
-use palette::{Alpha, Clamp, IsWithinBounds};
+use palette::{Alpha, Clamp, IsWithinBounds, WithAlpha};
 pub use palette;
 pub use pv;
 pub use pv::colorkind::Kind;
@@ -128,6 +128,44 @@ impl<A, T> ClampNo<T> for &Probe1<A, T> {
     }
 }
 
+/// WithAlpha::{with_alpha, without_alpha, split, opaque, transparent} on a node type:
+/// rows [c.., alpha] of: with_alpha(a).split(), with_alpha(a).without_alpha() (alpha slot = a),
+/// opaque().split(), transparent().split(), with_alpha(a).with_alpha(b).split(), and the untouched colour (alpha slot = b)
+pub type FWa<T> = fn([T; 3], T, T) -> [[T; 4]; 6];
+pub trait WaYes<T> {
+    fn get_wa(&self) -> Option<FWa<T>>;
+}
+pub trait WaNo<T> {
+    fn get_wa(&self) -> Option<FWa<T>>;
+}
+impl<A, T> WaYes<T> for Probe1<A, T>
+where
+    T: Copy + palette::stimulus::Stimulus,
+    A: Node<T> + WithAlpha<T, Color = A> + Clone,
+    <A as WithAlpha<T>>::WithAlpha: WithAlpha<T, Color = A, WithAlpha = <A as WithAlpha<T>>::WithAlpha> + Clone,
+{
+    fn get_wa(&self) -> Option<FWa<T>> {
+        Some(|v, a, b| {
+            let row = |c: A, al: T| {
+                let k = c.to3();
+                [k[0], k[1], k[2], al]
+            };
+            let x = A::from3(v);
+            let (c1, a1) = x.clone().with_alpha(a).split();
+            let c2 = x.clone().with_alpha(a).without_alpha();
+            let (c3, a3) = x.clone().opaque().split();
+            let (c4, a4) = x.clone().transparent().split();
+            let (c5, a5) = x.clone().with_alpha(a).with_alpha(b).split();
+            [row(c1, a1), row(c2, a), row(c3, a3), row(c4, a4), row(c5, a5), row(x, b)]
+        })
+    }
+}
+impl<A, T> WaNo<T> for &Probe1<A, T> {
+    fn get_wa(&self) -> Option<FWa<T>> {
+        None
+    }
+}
+
 pub struct NodeInfo {
     pub name: &'static str,
     pub kind: Kind,
@@ -144,6 +182,7 @@ pub struct Graph<T: 'static> {
     pub pa: Vec<Vec<Option<F34<T>>>>,
     pub ap: Vec<Vec<Option<F43<T>>>>,
     pub clamp: Vec<Option<(F3<T>, fn([T; 3]) -> bool)>>,
+    pub wa: Vec<Option<FWa<T>>>,
 }
 impl<T> Graph<T> {
     pub fn n(&self) -> usize {
@@ -174,13 +213,14 @@ macro_rules! graph {
     ($fname:ident, $gname:literal, $T:ty, [ $( ($tag:literal, $ty:ty, $kind:expr) ),* $(,)? ]) => {
         pub fn $fname() -> $crate::Graph<$T> {
             #[allow(unused_imports)]
-            use $crate::{UncYes, UncNo, ClampedYes, ClampedNo, TryYes, TryNo, AaYes, AaNo, PaYes, PaNo, ApYes, ApNo, ClampYes, ClampNo};
+            use $crate::{UncYes, UncNo, ClampedYes, ClampedNo, TryYes, TryNo, AaYes, AaNo, PaYes, PaNo, ApYes, ApNo, ClampYes, ClampNo, WaYes, WaNo};
             let nodes = vec![$( $crate::NodeInfo { name: $tag, kind: $kind } ),*];
             let mut unc = vec![]; let mut clamped = vec![]; let mut tryc = vec![];
             let mut aa = vec![]; let mut pa = vec![]; let mut ap = vec![];
             $crate::graph!(@rows $T, unc, clamped, tryc, aa, pa, ap, [ $( $ty ),* ], [ $( $ty ),* ]);
             let clamp = vec![ $( (&$crate::Probe1::<$ty, $T>(core::marker::PhantomData)).get_clamp() ),* ];
-            $crate::Graph { name: $gname, float: stringify!($T), nodes, unc, clamped, tryc, aa, pa, ap, clamp }
+            let wa = vec![ $( (&$crate::Probe1::<$ty, $T>(core::marker::PhantomData)).get_wa() ),* ];
+            $crate::Graph { name: $gname, float: stringify!($T), nodes, unc, clamped, tryc, aa, pa, ap, clamp, wa }
         }
     };
     (@rows $T:ty, $unc:ident, $clamped:ident, $tryc:ident, $aa:ident, $pa:ident, $ap:ident, [ $( $from:ty ),* ], $tos:tt) => {
